@@ -363,6 +363,29 @@ def multiline_args_program(rng, feats):
     return "\n".join(src) + "\n", "\n".join(flat) + "\n"
 
 
+def empty_arg_program(rng, feats):
+    """empty brace groups as arguments: the parameter expands to nothing, the rest of the body follows"""
+    src = ["@macro E2, 2, EA, EB", "@db $a0", "EA", "@db $a1", "EB", "@db $a2", "@endmacro",
+           "@macro E1, 1, EC", "@db 1, 2 EC", "@db $b0", "@endmacro"]
+    flat = []
+    for _ in range(rng.randint(2, 4)):
+        a, b = (rng.choice(["{}", "{ }", "{ @db 9 }", "{ @db 7, 8 }"]) for _ in range(2))
+        src.append(f"E2 {a}, {b}")
+        flat.append("@db $a0")
+        if "@db" in a:
+            flat.append(a.strip("{} "))
+        flat.append("@db $a1")
+        if "@db" in b:
+            flat.append(b.strip("{} "))
+        flat.append("@db $a2")
+        c = rng.choice(["{}", "{ }", "{ , 3 }"])
+        src.append(f"E1 {c}")
+        flat.append("@db 1, 2" + (" , 3" if "3" in c else ""))
+        flat.append("@db $b0")
+        feats["empty_args"] = feats.get("empty_args", 0) + 1
+    return "\n".join(src) + "\n", "\n".join(flat) + "\n"
+
+
 def definer_program(rng, feats):
     """a macro with parameters that defines another macro: the outer parameters are substituted in
     the nested definition's name, parameter count position excluded, and body"""
@@ -437,6 +460,7 @@ def run(tier, seed):
         progs.append(tailcall_program(rng, feats))
         progs.append(deep_definer_program(rng, feats))
         progs.append(multiline_args_program(rng, feats))
+        progs.append(empty_arg_program(rng, feats))
     corner = [
         ("@macro M, 0\n@db 1\n@endmacro\n@macro M, 0\n@db 2\n@endmacro\n", None),   # defining a macro twice is rejected
         ("@macro Z, 0\n@endmacro\nZ\n@db 9\n", "@db 9\n"),
